@@ -558,6 +558,40 @@ func registerStr(vm *VM) {
 					return len(bs) >= len(y) && vm.Decide(vm.matchAt(bs, len(bs)-len(y), y))
 				}
 			}
+			if !ok1 && ok2 && y != "" && !strings.ContainsAny(y, "-0123456789") && hasDec(atomsOf(a[0])) {
+				// a pattern without digits or '-' cannot overlap a decimal atom (never empty): it matches
+				// inside one of the runs between the atoms, starts a string only if the string does not
+				// start with an atom, and ends it only if the string does not end with one
+				as := atomsOf(a[0])
+				runs := decFreeRuns(as)
+				switch name {
+				case "strings.Contains":
+					for _, r := range runs {
+						if vm.symIndex(r, y) >= 0 {
+							return true
+						}
+					}
+					return false
+				case "strings.HasPrefix":
+					if as[0].Kind == aDec || len(runs[0]) < len(y) {
+						return false
+					}
+					return vm.Decide(vm.matchAt(runs[0], 0, y))
+				case "strings.HasSuffix":
+					last := runs[len(runs)-1]
+					if as[len(as)-1].Kind == aDec || len(last) < len(y) {
+						return false
+					}
+					return vm.Decide(vm.matchAt(last, len(last)-len(y), y))
+				}
+			}
+			if !ok1 && ok2 && name == "strings.Index" && y != "" && !strings.ContainsAny(y, "-0123456789") {
+				// decimal atoms (digits, '-') cannot take part in a match of this pattern: a match that
+				// lies before the first decimal atom has a concrete position
+				if idx, ok := vm.indexBeforeDec(atomsOf(a[0]), y); ok {
+					return idx
+				}
+			}
 			if !ok1 || !ok2 {
 				vmErr("%s on symbolic strings (%s, %s)", name, describe(a[0]), describe(a[1]))
 			}
@@ -731,4 +765,61 @@ func (vm *VM) symIndex(bs []Value, pat string) int64 {
 		}
 	}
 	return -1
+}
+
+// indexBeforeDec: strings.Index of a pattern without digits or '-' in a string with decimal
+// atoms. Decided when the first match lies in the part before the first decimal atom, or when
+// no later part can contain the pattern's first character; otherwise not modelled.
+func (vm *VM) indexBeforeDec(as []Atom, pat string) (int64, bool) {
+	var prefix []Value
+	rest := false
+	for i, a := range as {
+		if a.Kind == aDec {
+			for _, b := range as[i+1:] {
+				switch b.Kind {
+				case aConc:
+					if strings.ContainsAny(b.S, pat) {
+						rest = true
+					}
+				case aByte:
+					rest = true
+				}
+			}
+			break
+		}
+		switch a.Kind {
+		case aConc:
+			for k := 0; k < len(a.S); k++ {
+				prefix = append(prefix, int64(a.S[k]))
+			}
+		case aByte:
+			prefix = append(prefix, a.T)
+		}
+	}
+	if idx := vm.symIndex(prefix, pat); idx >= 0 {
+		return idx, true
+	}
+	if rest {
+		return 0, false
+	}
+	return -1, true
+}
+
+// decFreeRuns splits the atoms at the decimal atoms and returns the byte runs in between
+// (first and last run may be empty).
+func decFreeRuns(as []Atom) [][]Value {
+	runs := [][]Value{nil}
+	for _, a := range as {
+		switch a.Kind {
+		case aDec:
+			runs = append(runs, nil)
+		case aConc:
+			for k := 0; k < len(a.S); k++ {
+				runs[len(runs)-1] = append(runs[len(runs)-1], int64(a.S[k]))
+			}
+		case aByte:
+			runs[len(runs)-1] = append(runs[len(runs)-1], a.T)
+		}
+	}
+	return runs
 }
